@@ -55,8 +55,12 @@ def import_haiway():
     if src not in sys.path:
         sys.path.insert(0, src)
     from harness import vloop  # noqa: F401  (patch the clock before haiway binds it)
+    import warnings
+
     import haiway
 
+    sys.unraisablehook = lambda _u: None  # ScopeMetrics.__del__ asserts on abandoned scopes: noise, not a verdict
+    warnings.simplefilter("ignore", RuntimeWarning)
     f = os.path.realpath(haiway.__file__)
     if not f.startswith(os.path.realpath(src)):
         raise Infra(f"haiway imported from {f}, expected under {src}")
@@ -327,17 +331,24 @@ def run_check(comp, tier: str, seed: int, replay: str | None = None) -> int:
             if c not in seen:
                 seen.add(c)
                 cases.append(c)
-    # 4. both sides
-    model_out = run_model(comp.LEAN_COMPONENT, cases)
+    # 4. both sides.  A component may derive the model's input from the implementation's observation
+    #    (`model_input`: replay of the observed linearisation = trace inclusion) and may supply its own
+    #    agreement predicate (`agree`); the default is the same case line to both sides and equal output.
     real_out = run_real_many(comp, cases, procs)
+    model_in = getattr(comp, "model_input", lambda c, r: c)
     canon = getattr(comp, "canon", lambda c, o: o)
+    agree = getattr(comp, "agree", lambda c, m, r: canon(c, m) == canon(c, r))
+    model_out = run_model(comp.LEAN_COMPONENT, [model_in(c, r) for c, r in zip(cases, real_out)])
+
+    def model_of(c: str, r: str) -> str:
+        return run_model(comp.LEAN_COMPONENT, [model_in(c, r)])[0]
 
     disagreements: list[int] = []
     failures: dict[str, list[int]] = {}
     nontrivial = set()
     dist = Counter()
     for i, (c, m, r) in enumerate(zip(cases, model_out, real_out)):
-        if canon(c, m) != canon(c, r):
+        if not agree(c, m, r):
             disagreements.append(i)
         for sig in comp.monitor(c, r):
             failures.setdefault(sig, []).append(i)
@@ -364,10 +375,11 @@ def run_check(comp, tier: str, seed: int, replay: str | None = None) -> int:
             continue
         c0 = min((cases[i] for i in idxs), key=len)
         small = shrink_case(comp, c0, lambda c: sig in real_and_monitor(c))
+        small_real = guarded(comp.run_real, small)
         p = write_replay(pid, "violation", {
             "property": pid, "kind": "property-fails-on-implementation", "signature": sig,
-            "case": small, "original_case": c0, "implementation_output": guarded(comp.run_real, small),
-            "model_output": run_model(comp.LEAN_COMPONENT, [small])[0], "occurrences": len(idxs),
+            "case": small, "original_case": c0, "implementation_output": small_real,
+            "model_output": model_of(small, small_real), "occurrences": len(idxs),
             "replay_cmd": f"./check {pid} --replay <this file>"})
         violations.append((sig, p, True))
 
@@ -378,7 +390,8 @@ def run_check(comp, tier: str, seed: int, replay: str | None = None) -> int:
         c0 = min((cases[i] for i in unexplained), key=len)
 
         def differs(c: str) -> bool:
-            return canon(c, run_model(comp.LEAN_COMPONENT, [c])[0]) != canon(c, guarded(comp.run_real, c))
+            r = guarded(comp.run_real, c)
+            return not agree(c, model_of(c, r), r)
 
         small = shrink_case(comp, c0, differs)
         found = None
@@ -396,11 +409,12 @@ def run_check(comp, tier: str, seed: int, replay: str | None = None) -> int:
         if found:
             cand, sig = found
             cand = shrink_case(comp, cand, lambda c: sig in real_and_monitor(c))
+            cand_real = guarded(comp.run_real, cand)
             p = write_replay(pid, "violation", {
                 "property": pid, "kind": "property-fails-on-implementation", "signature": sig, "case": cand,
                 "found_by": "failing-input search after correspondence disagreement", "disagreeing_case": small,
-                "implementation_output": guarded(comp.run_real, cand),
-                "model_output": run_model(comp.LEAN_COMPONENT, [cand])[0]})
+                "implementation_output": cand_real,
+                "model_output": model_of(cand, cand_real)})
             violations.append((sig, p, True))
         else:
             p = write_replay(pid, "correspondence", {
@@ -409,7 +423,7 @@ def run_check(comp, tier: str, seed: int, replay: str | None = None) -> int:
                                          f"theorems of {comp.PROPS_MODULE} are about a model the code no longer matches",
                 "theorems": thms, "case": small, "original_case": c0,
                 "implementation_output": guarded(comp.run_real, small),
-                "model_output": run_model(comp.LEAN_COMPONENT, [small])[0],
+                "model_output": model_of(small, guarded(comp.run_real, small)),
                 "disagreeing_cases": len(unexplained), "search": f"{searched} neighbours + {len(cases)} explored cases: property monitor held on all"})
             violations.append(("correspondence", p, False))
 
